@@ -56,6 +56,9 @@ type Ctx struct {
 
 	subFailed map[string]bool
 	deadline  time.Time
+	// Memo caches observations that only depend on the key (e.g. the
+	// fault-free run of a program) within one shard run.
+	Memo map[interface{}]interface{}
 }
 
 // Quick reports whether this is the quick tier.
@@ -296,7 +299,7 @@ func runRegress(c *Ctx) {
 // RunShard executes one shard of a property run and returns its report.
 func RunShard(p *Property, tier string, seed uint64, shard, n int, known *findings.Set, budget time.Duration) *ev.Shard {
 	c := &Ctx{Prop: p, Tier: tier, Seed: seed, Shard: shard, N: n, SB: sb.New(), Ev: ev.NewCollector(), Known: known,
-		subFailed: map[string]bool{}}
+		subFailed: map[string]bool{}, Memo: map[interface{}]interface{}{}}
 	if budget > 0 {
 		c.deadline = time.Now().Add(budget)
 	}
@@ -325,7 +328,7 @@ func Replay(p *Property, path string, known *findings.Set) (*Fail, error) {
 	if !ok {
 		return nil, fmt.Errorf("unknown sub-check %q", v.Sub)
 	}
-	c := &Ctx{Prop: p, Tier: "quick", Seed: 1, N: 1, SB: sb.New(), Ev: ev.NewCollector(), Known: known, subFailed: map[string]bool{}}
+	c := &Ctx{Prop: p, Tier: "quick", Seed: 1, N: 1, SB: sb.New(), Ev: ev.NewCollector(), Known: known, subFailed: map[string]bool{}, Memo: map[interface{}]interface{}{}}
 	defer c.SB.Close()
 	return sub.replay(c, v.Case)
 }
